@@ -54,7 +54,9 @@ fn to_str(hooks: &mut Hooks, value: Value) -> LyStr {
         });
       }
 
-      hooks.manage_str(format!("{string:?}"))
+      // the str method failed or did not return a string, fall back to
+      // how the runtime itself shows the value
+      hooks.manage_str(format!("{value}"))
     })
     .expect("No str method")
 }
